@@ -183,6 +183,7 @@ def oracle(ctx):
     rep.dist['oracle.raising-calls-observed'] += stats['raising']
     rep.dist['oracle.rejected-items-reused'] += stats['reuse']
     _calculator_worlds(ctx, rep)
+    _rollback_relations(rep)
 
 
 def _calculator_worlds(ctx, rep):
@@ -193,10 +194,10 @@ def _calculator_worlds(ctx, rep):
     from harness import world as W
     from harness import worldcorr as WC
     from props import _worldfam as F
-    for pname in ('projheavy', 'basic'):
+    for pname in ('projheavy', 'basic', 'fleetheavy'):
         p = dict(F.PARAM_SETS[pname], malformed=0.5, nsteps=50)
         base = ctx.sub_rnd('calc-worlds', pname).randrange(10 ** 9)
-        for k in range(ctx.n(15, 400)):
+        for k in range(ctx.n(12, 300)):
             seed = base + k
             rnd, w = WC.make_world(seed, p)
             gen = W.OpGen(rnd, p)
@@ -231,6 +232,63 @@ def _calculator_worlds(ctx, rep):
             rep.case(sig=('calc-world', pname, seed), kind='calc-world-' + pname)
 
 
+def _rollback_relations(rep):
+    """Designed world for the roll-back of rejected single-slot assignments: modifiers that resolve their affectee
+    through the holder (`other` domain module <-> charge, ship-domain and item/ship modifiers of modules) are all
+    present, every value is read before, and each rejected call (a charge that sits in another module, a ship / stance
+    of another fit) must leave every attribute of every item as it was."""
+    from eos import Charge, Fit, ModuleHigh, Ship, SolarSystem, Stance, State
+    from eos.const.eos import ModAffecteeFilter, ModAggregateMode, ModDomain, ModOperator
+    from eos.const.eve import EffectCategoryId
+    from eos.eve_obj.modifier import DogmaModifier
+    from harness import mem
+    ch = mem.MemCache()
+    a, b = ch.mkattr(stackable=True), ch.mkattr(stackable=True)
+
+    def eff(filt, dom, cat=EffectCategoryId.passive):
+        return ch.mkeffect(category_id=cat, modifiers=(DogmaModifier(
+            affectee_filter=filt, affectee_domain=dom, affectee_attr_id=a.id, operator=ModOperator.post_percent,
+            aggregate_mode=ModAggregateMode.stack, affector_attr_id=b.id),))
+    e_other = eff(ModAffecteeFilter.item, ModDomain.other)
+    e_ship = eff(ModAffecteeFilter.item, ModDomain.ship)
+    e_dom = eff(ModAffecteeFilter.domain, ModDomain.ship)
+    e_self = eff(ModAffecteeFilter.item, ModDomain.self)
+    modt = ch.mktype(attrs={a.id: 10, b.id: 50}, effects=[e_other, e_ship])
+    chgt = ch.mktype(attrs={a.id: 10, b.id: 20}, effects=[e_other])
+    shipt = ch.mktype(attrs={a.id: 100, b.id: 10}, effects=[e_dom, e_self])
+    stt = ch.mktype(attrs={a.id: 5, b.id: 30}, effects=[e_ship])
+    for case in ('charge', 'ship', 'stance'):
+        ss = SolarSystem(source=mem.source(ch))
+        f, g = Fit(solar_system=ss), Fit(solar_system=ss)
+        f.ship, g.ship = Ship(shipt.id), Ship(shipt.id)
+        f.stance, g.stance = Stance(stt.id), Stance(stt.id)
+        m1, m2 = ModuleHigh(modt.id, state=State.online), ModuleHigh(modt.id, state=State.online)
+        m1.charge, m2.charge = Charge(chgt.id), Charge(chgt.id)
+        f.modules.high.append(m1)
+        f.modules.high.append(m2)
+        items = [f.ship, g.ship, f.stance, g.stance, m1, m2, m1.charge, m2.charge]
+
+        def obs():
+            return [(k, it.attrs[a.id], sorted(it._running_effect_ids), it._is_loaded) for k, it in enumerate(items)]
+        before = obs()
+        try:
+            if case == 'charge':
+                m2.charge = m1.charge
+            elif case == 'ship':
+                f.ship = g.ship
+            else:
+                f.stance = g.stance
+            rep.violate('assigning the %s of another holder did not raise' % case, {'designed': case})
+            continue
+        except ValueError:
+            pass
+        after = obs()
+        rep.case(kind='oracle-rollback-relations', sig=('rollback-relations', case))
+        if before != after:
+            rep.violate('rejected %s assignment raised ValueError and changed the world: %r' % (
+                case, [(x, y) for x, y in zip(before, after) if x != y][:3]), {'designed': case})
+
+
 def search(ctx, broken):
     ctx.tier = 'thorough'
     oracle(ctx)
@@ -244,6 +302,15 @@ def replay(path):
         print('replay names a broken obligation; re-run ./check C06 to re-check it')
         return 0
     case = v['case']
+    if 'designed' in case:
+        rep = C.Report()
+        _rollback_relations(rep)
+        for x in rep.violations:
+            print('REPRODUCED:', x['what'])
+        return 1 if rep.violations else 0
+    if 'ops' in case:
+        from props import _worldfam as F
+        return F.generic_replay(PID, path)
     exh = 'note' in case
     w = H.World(pool=H.EX_POOL, nfits=2, nss=1, nfl=0, nholders=0) if exh else H.World()
     pre = [('ssAdd', 0, 0), ('ssAdd', 0, 1), ('append', 1, 0, 3)] if exh else [('ssAdd', f % 2, f) for f in range(2)]
